@@ -134,7 +134,7 @@ func genStyle(r *Rng, base *recStyle, uniform bool) recStyle {
 	s.twelve = r.Chance(1, 4)
 	s.spaces = !r.Chance(1, 4)
 	if r.Chance(1, 4) {
-		s.extraQ = r.Range(1, 3)
+		s.extraQ = r.Pick2([]int{1, 2, 3, 3, 7, 11})
 	}
 	s.padTime = r.Chance(1, 5)
 	if base != nil {
@@ -163,6 +163,7 @@ type docOpts struct {
 	sorted     int // 0 random, 1 sorted ascending, -1 unsorted allowed
 	noDupDates bool
 	ascii      bool
+	longQ      bool // open ranges with long placeholders (closing them shrinks the file)
 }
 
 func genEntry(r *Rng, st recStyle, allowOpen bool) GEntry {
@@ -254,6 +255,10 @@ func genDoc(r *Rng, o docOpts) GDoc {
 	}
 	uniform := r.Chance(3, 5)
 	base := genStyle(r, nil, false)
+	if o.longQ {
+		base.extraQ = r.Pick2([]int{5, 6, 7, 9, 11})
+		uniform = true
+	}
 	// dates
 	offsets := make([]int, n)
 	cur := -r.Range(0, 3*n+2)
@@ -392,7 +397,7 @@ func (d *GDoc) render() string {
 // ---------------------------------------------------------------------------------------
 // damage: what storage and transfer faults make out of a file
 
-var damageKinds = []string{"bitflip", "drop", "insert", "truncate", "zero", "stutter", "lonecr", "crlf_partial", "latin1", "randblock", "dup_line", "splice", "bignum"}
+var damageKinds = []string{"bitflip", "drop", "insert", "truncate", "zero", "stutter", "lonecr", "crlf_partial", "latin1", "randblock", "dup_line", "splice", "bignum", "longline"}
 
 func damage(r *Rng, s string, kind string) string {
 	b := []byte(s)
@@ -524,6 +529,12 @@ func damage(r *Rng, s string, kind string) string {
 			}
 		}
 		b = []byte(s2)
+	case "longline":
+		// a very long line: a run of junk (or of a repeated fragment) lands inside a line
+		i := pos()
+		n := r.Pick2([]int{70, 76, 80, 100, 200, 1000, 5000})
+		unit := r.Pick([]string{"x", "x", "ab ", "é", "#tag ", "-", "?", "1h", " ", "\t", "8:00-"})
+		b = append(b[:i], append([]byte(strings.Repeat(unit, n/len(unit)+1)), b[i:]...)...)
 	case "splice":
 		// a block of the file lands at another offset (lost/misdirected write)
 		i := in()
